@@ -466,15 +466,23 @@ CaseVals(m, ssds, base, f, v) ==
                  ELSE IF HasCond(m) /\ g = "FlagField" THEN ForceFlag(Fill(4, BaseByte(base)), ssds)
                  ELSE Fill(RowOf(m, g).w, BaseByte(base))]
   IN Canon(m, raw)
+\* groups (second fan-out level): (message, condition, base, field) x 16 slices of the sweep prefixes
 LayGroups ==
-  {g \in {[k |-> "grp", fam |-> "lay", m |-> m, ssds |-> ssds, base |-> base, f |-> r.f, w |-> r.w] :
-             m \in Msgs, ssds \in BOOLEAN, base \in Bases, r \in UNION {DataRows(mm) : mm \in Msgs}} :
+  {g \in {[k |-> "grp", fam |-> "lay", m |-> m, ssds |-> ssds, base |-> base, f |-> r.f, w |-> r.w, sub |-> sub] :
+             m \in Msgs, ssds \in BOOLEAN, base \in Bases, r \in UNION {DataRows(mm) : mm \in Msgs}, sub \in 0 .. 15} :
      /\ g.f \in FieldNames(g.m) /\ RowOf(g.m, g.f).w = g.w /\ g.ssds \in Conds(g.m)
-     /\ ActiveRow(RowOf(g.m, g.f), g.ssds)}
+     /\ ActiveRow(RowOf(g.m, g.f), g.ssds)
+     /\ (g.sub > 0 => g.w = 2 /\ g.base \in SweepBases /\ ((RowOf(g.m, g.f).cond = "ssds") = g.ssds)
+                        /\ \E h \in SweepPrefixes2 : h \div 16 = g.sub)}
+\* sweeps: under the bases of the tier; a row that is always on the wire is swept in the short layout only
+SweepHere(g) == g.base \in SweepBases /\ ((RowOf(g.m, g.f).cond = "ssds") = g.ssds)
+InSlice(pre, w, sub) == IF w = 2 THEN pre[1] \div 16 = sub ELSE sub = 0
 LayCasesOf(g) ==
-  {[k |-> "lay", m |-> g.m, ssds |-> g.ssds, base |-> g.base, f |-> g.f, w |-> g.w, mode |-> "classes", pre |-> << >>]}
+  (IF g.sub = 0
+   THEN {[k |-> "lay", m |-> g.m, ssds |-> g.ssds, base |-> g.base, f |-> g.f, w |-> g.w, mode |-> "classes", pre |-> << >>]}
+   ELSE {})
     \cup {[k |-> "lay", m |-> g.m, ssds |-> g.ssds, base |-> g.base, f |-> g.f, w |-> g.w, mode |-> "sweep", pre |-> pre] :
-            pre \in (IF g.base \in SweepBases THEN SweepPrefixes(g.w) ELSE {})}
+            pre \in {q \in (IF SweepHere(g) THEN SweepPrefixes(g.w) ELSE {}) : InSlice(q, g.w, g.sub)}}
 \* a valid encoding written down directly: base bytes, the field's bytes := v,
 \* flag bit := ssds (unless the field is FlagField), padding zero
 CaseBytes(m, ssds, base, f, v) ==
@@ -543,9 +551,13 @@ Spec == Init /\ [][Next]_c
 \* --- the property section evaluated on the case
 PLayout == LayoutsWellFormed
 PLay == c.k = "lay" =>
-   \A v \in LayValues(c) :
-      LET vals == CaseVals(c.m, c.ssds, c.base, c.f, v)
-      IN IsVals(c.m, vals) /\ LayRoundTrip(c.m, vals) /\ LayReencode(c.m, CaseBytes(c.m, c.ssds, c.base, c.f, v))
+   LET flag == HasCond(c.m) /\ c.f = "FlagField"
+       b0 == CaseVals(c.m, c.ssds, c.base, c.f, Zeros(c.w))
+       ValsFor(v) == IF flag THEN CaseVals(c.m, c.ssds, c.base, c.f, v) ELSE [b0 EXCEPT ![c.f] = v]
+   IN /\ IsVals(c.m, b0)
+      /\ \A v \in LayValues(c) : LayRoundTrip(c.m, ValsFor(v))
+      \* the other direction (decode + encode of bytes written down directly); for sweeps see also PLayb
+      /\ c.mode = "classes" => \A v \in LayValues(c) : LayReencode(c.m, CaseBytes(c.m, c.ssds, c.base, c.f, v))
 PLayb == c.k = "layb" =>
    \A v \in {0, 1, 85, 170, 254, 255} :
       LET b == PatternBytes(c.m, c.ssds, v)
